@@ -33,6 +33,11 @@ def strip_conv(t):
         return t
 
 
+class CappedEnergy(Exception):
+    def __init__(s, bound):
+        s.bound = bound
+
+
 def energy_normal_form(cx, t):
     """t = c * log10(F(mean(sq(x), axis)))  ->  dict(coef_ms, floor_db, axis, squared_of) or raises ValueError(reason)"""
     if not (t[0] == 'bin' and t[1] == '*'):
@@ -57,7 +62,13 @@ def energy_normal_form(cx, t):
             amin = kws.get('a_min', u[2][1] if len(u[2]) > 1 else None)
             amax = kws.get('a_max', u[2][2] if len(u[2]) > 2 else ('c', None))
             if amax not in (('c', None), None):
-                raise ValueError('clip has an upper bound')
+                try:
+                    ub = const_value(cx, amax)
+                except ValueError:
+                    raise ValueError('clip has an upper bound that is not a constant')
+                # the RMS of full-scale 4-byte samples is 2**31; a lower ceiling caps the energy of loud windows (they fall below a
+                # threshold they exceed)
+                raise CappedEnergy(ub)
             return u[2][0], amin
         if is_np_call(u, ('maximum',)) and len(u[2]) == 2:
             return u[2][0], u[2][1]
@@ -187,6 +198,14 @@ def check(repo, rep):
         where = cx.where('signal', l.node)
         try:
             nf = energy_normal_form(cx, t)
+        except CappedEnergy as exc:
+            big = isinstance(exc.bound, (int, float)) and exc.bound >= 2 ** 31
+            if big:
+                rep.unknown('calculate_energy: clipped above at %r (no sample value reaches it)' % (exc.bound,))
+            else:
+                rep.ob('the energy is not capped from above (a window louder than any threshold stays active for every sample width)', False, where, 'calculate_energy:ceiling',
+                       'the RMS is clipped at %r, below the RMS 2**31 that 4-byte samples reach' % (exc.bound,))
+            continue
         except ValueError as exc:
             rep.unknown('calculate_energy: %s' % exc)
             continue
